@@ -17,6 +17,14 @@ func (a *Act) execBlock(b *ssa.BasicBlock, ctx *blockCtx) {
 		if len(a.pending) > 0 {
 			_, isExt := ins.(*ssa.Extract)
 			_, isDbg := ins.(*ssa.DebugRef)
+			if st, isStore := ins.(*ssa.Store); isStore {
+				// the store of a call's (extracted) result into its named variable belongs to the call
+				if _, fromExt := st.Val.(*ssa.Extract); fromExt {
+					isExt = true
+				} else if _, fromCall := st.Val.(*ssa.Call); fromCall {
+					isExt = true
+				}
+			}
 			if !isExt && !isDbg {
 				ps := a.pending
 				a.pending = nil
@@ -680,7 +688,9 @@ func (a *Act) typeAssert(ctx *blockCtx, x *ssa.TypeAssert) {
 	pv := Val{T: "(" + g.w.payFn(s) + " " + v.T + ")", S: s, G: x.AssertedType}
 	if x.CommaOk {
 		// value is zero when !ok
-		pv.T = "(ite " + ok + " " + pv.T + " " + g.w.zeroSort(s) + ")"
+		nm := g.fresh("ta", s)
+		g.fact("(= " + nm + " (ite " + ok + " " + pv.T + " " + g.w.zeroSort(s) + "))")
+		pv.T = nm
 		a.tuples[x] = []Val{pv, boolT(ok)}
 		a.set(x, Val{T: "$tuple", S: "Tuple"})
 		return
@@ -821,7 +831,9 @@ func (a *Act) rangeNext(ctx *blockCtx, x *ssa.Next) {
 	g.fact(implies(ctx.reach, and(
 		implies(ok, and(not("(= "+it.m.T+" ref_nil)"), "(select "+dom+" "+k+")", not("(select "+seen+" "+k+")"))),
 		implies(not(ok), or("(= "+it.m.T+" ref_nil)", "(forall (("+qk+" "+ks+")) (! (=> (select "+dom+" "+qk+") (select "+seen+" "+qk+")) :pattern ((select "+dom+" "+qk+"))))")))))
-	ctx.st[it.seen] = "(ite " + ok + " (store " + seen + " " + k + " true) " + seen + ")"
+	ns := g.fresh(it.seen, g.w.heapVars[it.seen])
+	g.fact("(= " + ns + " (ite " + ok + " (store " + seen + " " + k + " true) " + seen + "))")
+	ctx.st[it.seen] = ns
 	a.tuples[x] = []Val{boolT(ok), {T: k, S: ks, G: it.mt.Key()}, {T: val, S: vs, G: it.mt.Elem()}}
 	a.set(x, Val{T: "$tuple", S: "Tuple"})
 }
